@@ -780,6 +780,19 @@ class Tr:
                     return True
         return False
 
+    def probe_input(self, call, exc_type):
+        """spec["probes"]: {"ET.fromstring": ("ET.ParseError", "call:is_xml")} -> the input that says whether the probe succeeds"""
+        def dotted(n):
+            if isinstance(n, ast.Name):
+                return n.id
+            if isinstance(n, ast.Attribute) and isinstance(n.value, ast.Name):
+                return n.value.id + "." + n.attr
+            return None
+        pr = self.spec.get("probes", {}).get(dotted(call.func))
+        if pr and dotted(exc_type) == pr[0] and len(call.args) == 1 and not call.keywords:
+            return pr[1]
+        return None
+
     def external_name(self, call):
         f = call.func
         qual = None
@@ -875,6 +888,16 @@ class Tr:
                 v = self.expr(s.items[0].context_expr, st, sc)
                 st[s.items[0].optional_vars.id] = v
                 return self.block(list(s.body) + rest, st, sc)
+            if isinstance(s, ast.Try) and len(s.handlers) == 1 and not s.orelse and not s.finalbody \
+                    and len(s.handlers[0].body) == 1 and isinstance(s.handlers[0].body[0], ast.Pass) \
+                    and len(s.body) == 2 and isinstance(s.body[0], ast.Expr) and isinstance(s.body[0].value, ast.Call) \
+                    and isinstance(s.body[1], ast.Return) and self.probe_input(s.body[0].value, s.handlers[0].type) is not None:
+                # `try: probe(x); return c  except ProbeError: pass` - whether the probe succeeds is an input bit of the
+                # translated function (an external parser: its verdict is the environment's)
+                bit = self.probe_input(s.body[0].value, s.handlers[0].type)
+                ta = self.block([s.body[1]], st, Scope(sc))
+                tb = self.block(rest, st, Scope(sc))
+                return f"if {st[bit].lean} then\n{textwrap.indent(ta, '  ')}\nelse\n{textwrap.indent(tb, '  ')}"
             if isinstance(s, ast.Try) and len(s.handlers) == 1 and not s.orelse and not s.finalbody \
                     and isinstance(s.handlers[0].type, ast.Name) and len(s.handlers[0].body) == 1 \
                     and isinstance(s.handlers[0].body[0], ast.Raise):
@@ -988,7 +1011,7 @@ class Tr:
     @staticmethod
     def err_of(name):
         return {"InvalidFrameException": ".invalidFrame", "InvalidResponseException": ".invalidResponse",
-                "ProtocolError": ".protocol", "AuthenticationError": ".auth"}.get(name, f'(.py "{name}")')
+                "ProtocolError": ".protocol", "AuthenticationError": ".auth", "DiscoverError": ".discover"}.get(name, f'(.py "{name}")')
 
     def pure_or_effect_block(self, stmts, st, sc):
         """straight-line statements (assignments) whose effects are bound in the CURRENT scope"""
@@ -1332,6 +1355,10 @@ LAN_SPECS = [
          loop_body=dict(state="_buffer", var="buffer", data="data", queue="_queue"),
          out=("step", "buffer"), rtype="R (Option (Bytes × Bytes))", effectful=True, native_bytes=True,
          model="Except.ok (Model.reasmStep buffer)"),
+    dict(name="getDeviceVersion", file="msmart/discover.py", func="Discover._get_device_version",
+         inputs=[("call:is_xml", "bool"), ("data", "bytes")], probes={"ET.fromstring": ("ET.ParseError", "call:is_xml")},
+         out=("value", "int"), rtype="R Int", effectful=True, native_bytes=True,
+         model="(Model.getDeviceVersion is_xml data).map (fun n => (n : Int))"),
     dict(name="packetEncode", file=LAN, func="_Packet.encode",
          inputs=[("device_id", "int"), ("command", "bytes"), ("call:ts", "bytes")],
          out=("value", "bytes"), rtype="R Bytes", effectful=True, native_bytes=True,
@@ -1580,7 +1607,7 @@ def translate_all(repo=None):
             defs.append((spec, None, False))
     out = []
     out.append("-- GENERATED by harness/pytrans.py from the current source text of /repo. DO NOT EDIT.\n")
-    out.append("import Msmart.Py.Ops\nimport Msmart.Model.Response\nimport Msmart.Model.Device\nimport Msmart.Model.PacketV3\nimport Msmart.Model.LanInt\nimport Msmart.Model.Reassembly\nimport Msmart.Generated.Crc8Table\n\nset_option linter.unusedVariables false\n\nnamespace Msmart.Generated.Codec\nopen Msmart\n\n")
+    out.append("import Msmart.Py.Ops\nimport Msmart.Model.Response\nimport Msmart.Model.Device\nimport Msmart.Model.PacketV3\nimport Msmart.Model.LanInt\nimport Msmart.Model.Reassembly\nimport Msmart.Model.Discover\nimport Msmart.Generated.Crc8Table\n\nset_option linter.unusedVariables false\n\nnamespace Msmart.Generated.Codec\nopen Msmart\n\n")
     out.append(STATE_STRUCT)
     out.append(APPLY_STRUCT)
     for spec in SPECS:
